@@ -458,6 +458,8 @@ class Tr:
             if x[0] != "id" or env.get(x[1]) != "cellptr":
                 raise Refuse(f"{self.fn}: `*` applied to something that is not an Item** local")
             return f"(h.get {lean_name(x[1])})", "ptr"
+        if k == "leanterm":
+            return e[1], e[2]
         if k == "endptr":
             if self.in_item:
                 raise Refuse(f"{self.fn}: &endItem inside Item")
@@ -981,6 +983,25 @@ class Tr2(Tr):
                 if rhs[0] == "assign":
                     # `a = b = e;` is `b = e; a = b;`
                     return self.stmts2([("expr", rhs), ("expr", ("assign", lhs, rhs[1]))] + rest, env, ind, lp)
+                if lhs[0] == "field" and self.strip(lhs[1])[0] == "assign":
+                    # `(a = b)->f = c;` : c first (C++17: the right operand of `=` is sequenced before the left), then `a = b`,
+                    # then the store into member f of the pointer just assigned
+                    inner = self.strip(lhs[1])
+                    fty = self.field_type(lhs[2])
+                    if self.fields[lhs[2]][1]:
+                        raise Refuse(f"{self.fn}: store into const member `{lhs[2]}`")
+                    ct, ctt = self.rv(rhs, env, fty)
+                    if ctt != fty:
+                        raise Refuse(f"{self.fn}: {ctt} stored into the {fty} member `{lhs[2]}`")
+                    bt, btt = self.rv(inner[2], env, "ptr")
+                    if btt != "ptr":
+                        raise Refuse(f"{self.fn}: `(a = b)->{lhs[2]}` with b of type {btt}")
+                    self.fresh += 2
+                    tc, tb = f"t{self.fresh - 1}", f"t{self.fresh}"
+                    line, env, _ = self.assign(inner[1], ("leanterm", tb, "ptr"), env, ind)
+                    setter = "set" + lhs[2][0].upper() + lhs[2][1:]
+                    return (f"{ind}let {tc} := {ct}\n{ind}let {tb} := {bt}\n{line}{ind}let h := h.{setter} {tb} {tc}\n"
+                            + self.stmts2(rest, env, ind, lp))
                 if rhs[0] == "call" and rhs[1] == "__allocBlock":
                     # the block allocation idiom (recognised as a unit in front of the parser)
                     if lhs[0] != "id" or env.get(lhs[1]) != "ptr" or len(rhs[2]) != 1 or self.strip(rhs[2][0])[0] != "lit":
@@ -1476,12 +1497,42 @@ def translate_header(path):
     pre = free_locals([loop], hoisted, ["parent"], rbody[:mu.start()], "removeUpwards")
     asts["removeUpwards"] = (pre + [loop], [("ptr", "parent")], "void")
     order2.append("removeUpwards")
+    # the loop behind the label rebalParent: `do { ... } while(parent != origParent);` — falls through to rebalParentUpwards
+    rtxt = rbody[ml.end():mu.start()]
+    toks = tokenize(rtxt)
+    norm["removeRebal"] = toks
+    p = P(toks, "removeRebal")
+    items = p.block_items()
+    if p.peek() is not None or len(items) != 1 or items[0][0] != "dowhile":
+        raise Refuse("removeRebal: what stands between `rebalParent:` and `rebalParentUpwards:` is not one do-while loop")
+    rloop, rhoist = hoist_loop_locals(items[0])
+    asts["removeRebal"] = (sorted(rhoist, key=lambda d: d[2]) + [rloop, ("goto", "rebalDone")],
+                           [("cellptr", "cell"), ("ptr", "origParent"), ("ptr", "parent")], "ptr")
+    order2.append("removeRebal")
+    # what follows the rebalParentUpwards loop: unlinking from the prev/next list, `--_size`, pushing onto the free list
+    tail_txt = rbody[mu.end():]
+    ptail = P(tokenize(tail_txt), "removeTail")
+    ptail.stmt()                                  # the while loop (already translated as removeUpwards)
+    tail_toks = ptail.t[ptail.i:]
+    norm["removeTail"] = tail_toks
+    p = P(tail_toks, "removeTail")
+    items = p.block_items()
+    if p.peek() is not None:
+        raise Refuse("removeTail: trailing tokens")
+    asts["removeTail"] = (items, [("ptr", "item")], "ptr")
+    order2.append("removeTail")
+    # the complete remove(it): the statements in front of `rebalParent:` with the labels as continuations
+    p = P(tokenize(head), "remove")
+    asts["remove"] = (p.block_items(), [("ptr", m.group(1))], "ptr")
+    order2.append("remove")
     pure_of = {fn: False for fn in FUNCS}
     for fn in order2:
         items, params, ret = asts[fn]
         pure = not writes_heap(items, pure_of)
         pure_of[fn] = pure
         fuel = has_loop(items) or any(info[g]["fuel"] for g in info if ("call", g) in {(x[0], x[1]) for x in _calls(items)})
+        if fn == "remove":
+            fuel, pure = True, False          # its labels continue into the looping removeRebal / removeUpwards
         info[fn] = {"pure": pure, "counting": any(t == "key" for t, _ in params), "fuel": fuel, "ret": ret, "params": params}
     for fn in order2:
         items, params, ret = asts[fn]
@@ -1505,6 +1556,24 @@ def translate_header(path):
             tr.exits = {"rebalParentUpwards": mk_exit(0)}
             last = items[-1]
             items = items[:-1] + [("if", last[1], ("exit", mk_exit(1)), ("exit", mk_exit(2)))]
+        if fn == "removeRebal":
+            def done(env_, ind_):
+                return tr.result(lean_name("parent"), ind_)
+            tr.exits = {"rebalDone": done}
+        if fn == "remove":
+            def need(env_, names):
+                for n_, t_ in names:
+                    if env_.get(n_) != t_:
+                        raise Refuse(f"remove: no {t_} local `{n_}` in scope at a label")
+            def upwards(env_, ind_):
+                need(env_, [("parent", "ptr"), ("item", "ptr")])
+                return (f"{ind_}match removeUpwards fuel h v_parent with\n{ind_}| none => none\n{ind_}| some h =>\n"
+                        f"{ind_}    some (removeTail h v_item)\n")
+            def rebalp(env_, ind_):
+                need(env_, [("parent", "ptr"), ("origParent", "ptr"), ("cell", "cellptr")])
+                return (f"{ind_}match removeRebal fuel h v_cell v_origParent v_parent with\n{ind_}| none => none\n"
+                        f"{ind_}| some (h, v_parent) =>\n" + upwards(env_, ind_ + "    "))
+            tr.exits = {"rebalParentUpwards": upwards, "rebalParent": rebalp}
         body_l = tr.stmts2(items, env, "  ", None)
         binders = (" (fuel : Nat)" if info[fn]["fuel"] else "") + " (h : Heap)" + (" (c : Nat)" if info[fn]["counting"] else "") + tr.binders([(n, t) for t, n in params])
         out[fn] = "\n".join(tr.loops) + ("\n" if tr.loops else "") + f"def {fn}{binders} : {tr.res_type()} :=\n{body_l}"
